@@ -346,6 +346,85 @@ static void fifo_thread_churn()
     pmc_outcome("second_round=%d id_reused=%d", second_round, (int) (id1 == id3));
 }
 
+// Producer threads whose ids collide in the FIFO back-end's producer hash (32 slots): 20 candidate threads report
+// the slot their id hashes to; two with the same slot become A and B.  A pushes (home slot), B pushes (displaced to
+// the next slot), B exits (its displaced key has to be retired, its sub-queue becomes recyclable), then two new
+// threads push at the same time - one of them re-using B's id (the stack / TLS block of an exited thread is re-used),
+// the other being handed the recycled sub-queue.  Everything pushed must come out exactly once.
+static void fifo_hash_collision()
+{
+    constexpr int NC = 20;
+    pt::lockfree_fifo_backend<int> q(8);
+    struct Gate
+    {
+        std::mutex m;
+        std::condition_variable cv;
+        int v = 0;
+        void wait(int x) { std::unique_lock<std::mutex> l(m); cv.wait(l, [&] { return v >= x; }); }
+        void set(int x) { std::lock_guard<std::mutex> l(m); v = x; cv.notify_one(); }
+        void add() { std::lock_guard<std::mutex> l(m); ++v; cv.notify_one(); }
+    };
+    static Gate gmain, gc[NC], gn[2];
+    gmain.v = gn[0].v = gn[1].v = 0;
+    for (auto& x : gc) x.v = 0;
+    static int slot[NC], role[NC];    // role: 0 idle, 1 A, 2 B
+    static std::uintptr_t ids[NC], newid[2];
+    auto push = [&](int v) { PMC_ASSERT(q.push(v), "be-push", "push(%d) failed", v); };
+    int nacks = 0;
+    std::vector<std::thread> cand;
+    for (int i = 0; i < NC; ++i)
+    {
+        cand.emplace_back([&, i] {
+            ids[i] = (std::uintptr_t) pika::concurrency::detail::thread_id();
+            slot[i] = (int) (pika::concurrency::detail::hash_thread_id(pika::concurrency::detail::thread_id()) & 31u);
+            gmain.add();
+            gc[i].wait(1);
+            if (role[i] == 1) { push(1); gmain.add(); gc[i].wait(2); push(2); }                 // A stays alive to the end
+            else if (role[i] == 2) { push(3); push(4); }                                        // B: displaced key, then exits
+        });
+        gmain.wait(++nacks);
+    }
+    int a = -1, b = -1;
+    for (int i = 0; i < NC && a < 0; ++i)
+        for (int j = i + 1; j < NC; ++j)
+            if (slot[i] == slot[j]) { a = i; b = j; break; }
+    std::vector<int> pushed;
+    for (int i = 0; i < NC; ++i) role[i] = i == a ? 1 : i == b ? 2 : 0;
+    // the idle candidates exit first (they never touched the queue), so that B's stack / TLS block is the one
+    // freed last and the next thread created re-uses it (and with it B's thread id)
+    for (int i = 0; i < NC; ++i) if (i != a && i != b) { gc[i].set(1); cand[i].join(); }
+    if (a >= 0)
+    {
+        gc[a].set(1);
+        gmain.wait(++nacks);    // A has its home slot
+        gc[b].set(1);
+        cand[b].join();         // B pushed through a displaced key and exited
+        pushed = {1, 3, 4};
+    }
+    // two new threads push at the same time
+    std::thread n0([&] { newid[0] = (std::uintptr_t) pika::concurrency::detail::thread_id(); gn[0].wait(1); push(5); push(6); });
+    std::thread n1([&] { newid[1] = (std::uintptr_t) pika::concurrency::detail::thread_id(); gn[1].wait(1); push(7); push(8); });
+    gn[0].set(1);
+    gn[1].set(1);
+    n0.join();
+    n1.join();
+    for (int v : {5, 6, 7, 8}) pushed.push_back(v);
+    if (a >= 0) { gc[a].set(2); cand[a].join(); pushed.push_back(2); }
+    int reused = a >= 0 && (newid[0] == ids[b] || newid[1] == ids[b]);
+    std::vector<int> count(16, 0);
+    for (int v : pushed) ++count[v];
+    for (size_t i = 0; i < pushed.size(); ++i)
+    {
+        int v = -1;
+        PMC_ASSERT(q.pop(v), "quiescent-pop-failed", "%d of %d pushed elements came out, then pop failed (producer hash collision %s, the exited thread's id was %s)", (int) i, (int) pushed.size(), a >= 0 ? "found" : "not found", reused ? "re-used" : "not re-used");
+        PMC_ASSERT(v > 0 && v < 16 && count[v] > 0, "invented-or-duplicate", "drain returned %d which was not (or no longer) in the container", v);
+        --count[v];
+    }
+    int v = -1;
+    PMC_ASSERT(!q.pop(v), "invented-or-duplicate", "pop on the drained queue returned %d", v);
+    pmc_outcome("collision=%d id_reused=%d", (int) (a >= 0), reused);
+}
+
 int main(int argc, char** argv)
 {
     static const char* dsites = "concurrency/include/pika/concurrency/deque.hpp|boost/lockfree/detail/freelist.hpp|concurrency/detail/freelist.hpp";
@@ -367,6 +446,7 @@ int main(int argc, char** argv)
         {"be_fifo_2p1c", backend_concurrent<pt::lockfree_fifo_backend<int>, 2, 1>, 1, 2, 0.06, 0.1, 1, "F-site: all atomics in concurrentqueue.hpp", cqsites, nullptr},
         {"be_fifo_3c", fifo_three_consumers<1>, 3, -1, 0.35, 0, 1, "F-site: ImplicitProducer::dequeue only (the consumers' tickets and over-commit counters); three consumers, fewer elements than consumers", "ImplicitProducer::dequeue", nullptr},
         {"be_fifo_3c_n2", fifo_three_consumers<2>, -1, 3, 0, 0.2, 1, "the same with 1-2 elements", "ImplicitProducer::dequeue", nullptr},
+        {"be_fifo_hash_collision", fifo_hash_collision, 2, 3, 0.08, 0.05, 1, "F-site: ImplicitProducer::enqueue / get_or_add_implicit_producer / thread-exit recycling; two producer threads whose ids collide in the producer hash, one exits, two new threads push at the same time", "ImplicitProducer::enqueue|get_or_add_implicit_producer|implicit_producer_thread_exited|recycle_or_create_producer", nullptr},
         {"be_fifo_thread_churn", fifo_thread_churn<17>, 1, 2, 0.05, 0.05, 1, "F-site: ImplicitProducer::enqueue / get_or_add_implicit_producer / thread-exit recycling; 20 OS threads, two of them pushing at the same time at the end", "ImplicitProducer::enqueue|get_or_add_implicit_producer|implicit_producer_thread_exited|recycle_or_create_producer", nullptr},
         {"be_fifo_1p2c", backend_concurrent<pt::lockfree_fifo_backend<int>, 1, 2>, 1, 2, 0.06, 0.1, 1, "F-site: concurrentqueue.hpp", cqsites, nullptr},
         {"be_abp_lifo_1p2c", backend_concurrent<pt::lockfree_abp_lifo_backend<int>, 1, 2>, 1, 2, 0.06, 0.05, 1, "F-site: deque.hpp / freelist", dsites, nullptr},
